@@ -104,6 +104,8 @@ inductive Filter where
   | all
   | cmp (f : String) (op : Op) (l : Lit)
   | term (w : String)          -- free text: some field holds `w` as a whole space-delimited token (`*` wildcards allowed)
+  | phrase (cs : Bool) (p : String)   -- free text, one or several words: some field holds the phrase between token boundaries;
+                                      -- `cs` = exact case (SPL `CASE(…)`), else case-insensitive (`"…"`)
   | and (a b : Filter)
   | or (a b : Filter)
   | not (a : Filter)
@@ -186,6 +188,17 @@ def Val.text : Val → String
   | .str s => s
   | .bool b => if b then "true" else "false"
 
+/-- `p` occurs in `v` between token boundaries: it starts at the beginning of `v` or after a space and ends at the end of
+`v` or before a space — i.e. `" " ++ p ++ " "` is a substring of `" " ++ v ++ " "` (for one word: `p` is one of the
+space-delimited tokens of `v`) -/
+def infixL (p : List Char) : List Char → Bool
+  | [] => p.isEmpty
+  | c :: r => p.isPrefixOf (c :: r) || infixL p r
+def boundedIn (p v : String) : Bool := infixL ((" " ++ p ++ " ").toList) ((" " ++ v ++ " ").toList)
+
+def phraseMatches (cs : Bool) (p : String) (e : Event) : Bool :=
+  e.fields.any (fun (_, v) => if cs then boundedIn p v.text else boundedIn (lower p) (lower v.text))
+
 def termMatches (w : String) (e : Event) : Bool :=
   e.fields.any (fun (_, v) => let t := v.text; glob w t || (t.splitOn " ").any (fun tok => glob w tok))
 
@@ -212,6 +225,9 @@ def evalFilterAux (e : Event) (neg : Bool) : Filter → Tri × Classes
     let whole := e.fields.any (fun (_, v) => glob w v.text)
     let t := if termMatches w e then (if w.contains '*' && !whole then Tri.either else Tri.yes) else Tri.no
     (t, [])
+  | .phrase cs p =>
+    -- (wildcards inside CASE(…) / a phrase are matched by the engine against whole values: not generated, left open)
+    (if p.contains '*' then Tri.either else Tri.ofBool (phraseMatches cs p e), [])
   | .cmp f op l =>
     match e.get f with
     | none => if neg then (.either, []) else evalCmp none op l
@@ -229,6 +245,7 @@ def evalFilter (e : Event) (f : Filter) : Tri × Classes := evalFilterAux e fals
 def Filter.fields : Filter → List String
   | .all => []
   | .term _ => []
+  | .phrase _ _ => []
   | .cmp f _ _ => [f]
   | .and a b => a.fields ++ b.fields
   | .or a b => a.fields ++ b.fields
